@@ -188,3 +188,26 @@ def enumerate_bit_macros(C):
         if not (type(f).__name__ == 'BitsInteger' and f.length == w and f.signed is False and f.swapped is False):
             bad.append(name)
     return [('Bitwise/Bytewise: implementation chosen by sizedness, verified helpers in both directions, units 1/8; Bit/Nibble/Octet widths', n, bad)]
+
+
+# ------------------------------------------------------------------------------------------------ Restreamed._sizeof (C05, C10)
+prelude.declare_fun('fn_nat', [t.INT, t.INT], t.INT)
+
+
+def _rs_sized(pre):
+    return t.and_(t.not_(t.app('(_ is VNone)', t.BOOL, pre.eng.to_dyn(pre.self.fields['sizecomputer'], pre.st))) if not isinstance(pre.self.fields['sizecomputer'], VFunc) else t.TRUE,
+                  Sub(pre, 'subcon', kind='sizeof').ok)
+
+
+def _rs_size_ok(pre, post):
+    z = Sub(pre, 'subcon', kind='sizeof')
+    f = pre.self.fields['sizecomputer']
+    if not hasattr(f, 'ident'):
+        return []
+    return [('size-is-the-size-computer-applied-to-the-inner-size', size_is(post, t.app('fn_nat', t.INT, f.ident, z.val)), ('C05', 'C10'))]
+
+
+fcontract('Restreamed', '_sizeof', [
+    Case('ok', 'return', lambda pre: t.TRUE, ensures=_rs_size_ok, rkind=rk_dyn),
+    Case('no-size', 'raise', lambda pre: t.TRUE),
+], tags=('C05', 'C10'))
